@@ -28,7 +28,7 @@ func init() { hx.Register("C02", Run, Replay) }
 
 // fault is one entry of the catalogue applied to one site of one document.
 type fault struct {
-	Kind    string `json:"kind"`    // number | ref | delim | drop | dup | data-flip | data-trunc | length | xref-entry | xref-w | xref-prev | xref-size | truncate | byte
+	Kind    string `json:"kind"`    // number | ref | delim | drop | dup | data-flip | data-trunc | length | xref-entry | xref-w | xref-prev | xref-prev-graph | xref-size | truncate | byte
 	Ordinal int    `json:"ordinal"` // object / xref-section ordinal in writing order
 	Site    int    `json:"site"`    // index of the token inside the object text
 	Value   string `json:"value"`   // replacement
@@ -264,8 +264,11 @@ func render(doc writers.LDoc, lay writers.Layout, faults []fault) ([]byte, []sit
 		}
 	}
 	nx := 0
+	var secPrev []int64 // the /Prev the writer chose for each section: the offset of the one before
+	prevGraph := false
 	lay.XrefHook = func(x *writers.RawXref) {
 		nx++
+		secPrev = append(secPrev, x.Prev)
 		xOrd := x.Ordinal
 		x.DictRewrite = func(dict string) string { // called for cross-reference streams only
 			xrefDictNums[xOrd] = len(numSites(dict))
@@ -300,6 +303,11 @@ func render(doc writers.LDoc, lay writers.Layout, faults []fault) ([]byte, []sit
 				var v int64
 				fmt.Sscan(f.Value, &v)
 				x.Prev = v
+			case "xref-prev-graph":
+				// aimed at another section of this file in a chosen spelling: a placeholder
+				// of fixed width now, the number when the offsets are known (respellPrev)
+				x.Prev = prevPlaceholder + int64(x.Ordinal)
+				prevGraph = true
 			case "xref-size":
 				fmt.Sscan(f.Value, &x.Size)
 			case "xref-trailer":
@@ -308,6 +316,9 @@ func render(doc writers.LDoc, lay writers.Layout, faults []fault) ([]byte, []sit
 		}
 	}
 	data := writers.RenderPDF(doc, lay).Data
+	if prevGraph {
+		data = respellPrev(append([]byte(nil), data...), secPrev, faults)
+	}
 	for _, f := range faults {
 		switch f.Kind {
 		case "truncate":
@@ -978,7 +989,7 @@ func section(name string, f func()) {
 }
 
 func Run(c *hx.Ctx) {
-	c.Rep.Rule = "valid documents of all seven formats from the harness writers (PDF in random physical layouts, DOCX, ODT, XLSX, PPTX, EPUB, HTML) x every single fault of the catalogue at every site (numbers -> 0,-1,2^31,2^63-1; references -> self/root/missing; delimiters removed/added; objects/members dropped/duplicated; stream data flipped/truncated; objects and stream data replaced by 20 thousand / 6 million nested opening delimiters (balanced and not); /N, /First and every header pair of every object stream at the edges of their types, out of order, and at the edges of the stream's own header, body and decoded length (one to each side: numbers that are plausible alone and wrong once /First is added); /Length, every number, the delimiters and the filter of every cross-reference stream and object stream dictionary, files opened from disk; Form XObjects drawing Form XObjects (self, mutual, chains with fan-out k^d); every stream re-announced under every filter name/abbreviation/chain with edge decode parameters, over its own data and over runs of 0xFF/0x00/0xAA; /Length, xref entries, /W, /Prev, /Size, trailer; truncation at token boundaries; targeted field rewrites); authored PDFs: one font of each kind with every number of every font object/CMap/content stream and every 16-bit field of the embedded TrueType program at type edges, cmap segment fan-out; reference graphs (chains of indirect /Length, list-shaped and inline page trees, colour-space cycles, shared DAGs, images announcing w x h over 2 x 2 data, JPEG headers) also through Reader.ResolveDeep, resolver.ResolveDeep, ExtractPageImages+ToPNG; page geometry (every number of the page dictionary and of an unfiltered content stream at type edges and magnitudes in between, wide pages x huge fonts x many lines, repeated /Contents) through every option (PreserveLayout, ByColumn, JoinParagraphs, header/footer exclusion) and analysis entry point; structurally rich DOCX/ODT/PPTX with every numeric attribute and element text -> 0,-1,2^31-1,2^31,2^32,999999999,2^63-1,-2^63; the numeric fields the specifications define but the writers never emit, injected with the same values (DOCX, ODT, PPTX, XLSX, HTML); every identifier reference inside the XML members (style inheritance and links, numbering, relationship ids, spine ids) retargeted to its own definition, to every definition that reaches it, to nothing; authored style graphs (self, cycles, tail into a cycle, long chains, stars) with every style used; every element name and every container the specifications allow inside itself nested 130 thousand deep under a 32 MiB stack limit; products of bounded numbers (column letters, n merged regions x the grid, k sheets x the grid, k spanning cells x r rows, spine repetitions by idref and by n manifest items whose hrefs are n spellings of one content document (dot segments, percent-encoding, own directory) with what is kept and returned compared to the unpacked archive, inline nesting in HTML/EPUB); + sampled double faults + byte mutation + hostile token soup into the raw parsers (and Go native fuzz targets under harness/c02/fuzz, not part of the check); every case runs 1-8 public entry points under a 10 s deadline and a 3 GiB heap limit; every case is non-trivial; + the bounded-work correspondence (sections bounds-core, bounds-data, bounds-office): every guarded function of the C02 repairs is run beside its Lean model on generated inputs, mostly valid structured ones (object graphs of /Length, /Kids, colour-space and ResolveDeep references incl. cycles, shared subtrees and missing objects; object-stream headers; CCITT runs; fragment layouts; images; /Contents arrays; span/level/space attributes; inline containers; style tables; column letters; merged regions; workbook sheet entries; table grids; HTML trees; cmap segments; bfrange arrays) plus hostile values at type edges, and the edge of every constant from both sides (16 nested loads, 10000 page-tree levels, 2000/100 resolve levels, 64 MiB images and page content, 2^20 buckets, 8 colour-space levels, 200 columns/100 gap lines, 1024 spans and spaces, level 8, 10000 inline and tree levels, 2^40 columns, 8 Mi + 16 per element grid cells, 2^20 table cells, 65536 codes)"
+	c.Rep.Rule = "valid documents of all seven formats from the harness writers (PDF in random physical layouts, DOCX, ODT, XLSX, PPTX, EPUB, HTML) x every single fault of the catalogue at every site (numbers -> 0,-1,2^31,2^63-1; references -> self/root/missing; delimiters removed/added; objects/members dropped/duplicated; stream data flipped/truncated; objects and stream data replaced by 20 thousand / 6 million nested opening delimiters (balanced and not); /N, /First and every header pair of every object stream at the edges of their types, out of order, and at the edges of the stream's own header, body and decoded length (one to each side: numbers that are plausible alone and wrong once /First is added); /Length, every number, the delimiters and the filter of every cross-reference stream and object stream dictionary, files opened from disk; Form XObjects drawing Form XObjects (self, mutual, chains with fan-out k^d); every stream re-announced under every filter name/abbreviation/chain with edge decode parameters, over its own data and over runs of 0xFF/0x00/0xAA; /Length, xref entries, /W, /Prev, /Size, trailer; the /Prev of every cross-reference section (tables and streams, three revisions) aimed at every section of the file - itself, older, newer: cycles of every length - in every spelling of the number (integer, real with zero fraction, sign, leading zeros, the real next to it), and whole drawn /Prev graphs; truncation at token boundaries; targeted field rewrites); authored PDFs: one font of each kind with every number of every font object/CMap/content stream and every 16-bit field of the embedded TrueType program at type edges, cmap segment fan-out; reference graphs (chains of indirect /Length, list-shaped and inline page trees, colour-space cycles, shared DAGs, images announcing w x h over 2 x 2 data, JPEG headers) also through Reader.ResolveDeep, resolver.ResolveDeep, ExtractPageImages+ToPNG; page geometry (every number of the page dictionary and of an unfiltered content stream at type edges and magnitudes in between, wide pages x huge fonts x many lines, repeated /Contents) through every option (PreserveLayout, ByColumn, JoinParagraphs, header/footer exclusion) and analysis entry point; structurally rich DOCX/ODT/PPTX with every numeric attribute and element text -> 0,-1,2^31-1,2^31,2^32,999999999,2^63-1,-2^63; the numeric fields the specifications define but the writers never emit, injected with the same values (DOCX, ODT, PPTX, XLSX, HTML); every identifier reference inside the XML members (style inheritance and links, numbering, relationship ids, spine ids) retargeted to its own definition, to every definition that reaches it, to nothing; authored style graphs (self, cycles, tail into a cycle, long chains, stars) with every style used; every element name and every container the specifications allow inside itself nested 130 thousand deep under a 32 MiB stack limit; products of bounded numbers (column letters, n merged regions x the grid, k sheets x the grid, k spanning cells x r rows, spine repetitions by idref and by n manifest items whose hrefs are n spellings of one content document (dot segments, percent-encoding, own directory) with what is kept and returned compared to the unpacked archive, inline nesting in HTML/EPUB); + sampled double faults + byte mutation + hostile token soup into the raw parsers (and Go native fuzz targets under harness/c02/fuzz, not part of the check); every case runs 1-8 public entry points under a 10 s deadline and a 3 GiB heap limit; every case is non-trivial; + the bounded-work correspondence (sections bounds-core, bounds-data, bounds-office): every guarded function of the C02 repairs is run beside its Lean model on generated inputs, mostly valid structured ones (object graphs of /Length, /Kids, colour-space and ResolveDeep references incl. cycles, shared subtrees and missing objects; object-stream headers; CCITT runs; fragment layouts; images; /Contents arrays; span/level/space attributes; inline containers; style tables; column letters; merged regions; workbook sheet entries; table grids; HTML trees; cmap segments; bfrange arrays) plus hostile values at type edges, and the edge of every constant from both sides (16 nested loads, 10000 page-tree levels, 2000/100 resolve levels, 64 MiB images and page content, 2^20 buckets, 8 colour-space levels, 200 columns/100 gap lines, 1024 spans and spaces, level 8, 10000 inline and tree levels, 2^40 columns, 8 Mi + 16 per element grid cells, 2^20 table cells, 65536 codes)"
 	section("ops", func() {
 		xrefStreamOps(c)
 		gridOps(c)
@@ -1034,6 +1045,7 @@ func Run(c *hx.Ctx) {
 			xrefDictFaults(c, d, c.Seed*1000+uint64(d))
 		}
 	})
+	section("prev-graphs", func() { prevGraphs(c) })
 	section("forms", func() { formFanout(c) })
 	section("fonts", func() { fontFaults(c) })
 	section("pdf-graphs", func() { pdfGraphs(c) })
